@@ -173,6 +173,29 @@ func RunC18(id, tier string, seed int64) int {
 			fmt.Printf("  backend %s (+ PrefixDB, nested PrefixDB): %s\n    program: %s\n", r.backend, firstLine(r.msg), truncate(r.p.String(), 400))
 		}
 	}
+	// regression witnesses of repaired defects
+	wfiles, _ := filepath.Glob(filepath.Join(VerifDir, "findings", id+"-*.json"))
+	witnesses := 0
+	for _, wf := range wfiles {
+		bts, err := os.ReadFile(wf)
+		if err != nil {
+			continue
+		}
+		var rf struct {
+			Kind    string          `json:"kind"`
+			Backend string          `json:"backend"`
+			Program *kvprog.Program `json:"program"`
+		}
+		if json.Unmarshal(bts, &rf) != nil || rf.Kind != "kvprog" || rf.Program == nil {
+			continue
+		}
+		witnesses++
+		if msg := kvprog.Run(rf.Program, rf.Backend); msg != "" {
+			fmt.Printf("  regression witness %s fails again: %s\n", filepath.Base(wf), firstLine(msg))
+			violations = append(violations, fmt.Sprintf("VIOLATION property=%s replay=%s", id, wf))
+		}
+	}
+	ev.Coverage["regression_witnesses_replayed"] = witnesses
 	var samples []interface{}
 	for i := 0; i < len(progs) && i < 3; i++ {
 		samples = append(samples, progs[i].String())
